@@ -866,7 +866,11 @@ func (f *fragment) unprotectedClearRow(rowID uint64) (changed bool, err error) {
 		// to return true if any existing data was removed.
 		if cont := f.storage.Containers.Get(k); cont != nil {
 			f.storage.Containers.Remove(k)
-			changed = true
+			// An empty container (left behind by clearing its last bit)
+			// holds no data, so removing it is not a change.
+			if cont.N() > 0 {
+				changed = true
+			}
 		}
 	}
 
@@ -2681,6 +2685,12 @@ func (f *fragment) unprotectedRows(start uint64, filters ...rowFilter) []uint64 
 	// Loop over the existing containers.
 	for i.Next() {
 		key, c := i.Value()
+
+		// skip empty containers (left behind by clearing their last bit):
+		// a row without any bit set is not a row.
+		if c.N() == 0 {
+			continue
+		}
 
 		// virtual row for the current container
 		vRow := key >> shardVsContainerExponent
